@@ -26,6 +26,12 @@ check("C16",
       "TLA+ spec (QIndex/QProb) model-checked with TLC; TLC trace validation of recorded index_util calls; replay of TLC-emitted tensors",
       "DESIGN.md §4 C16")
 
+check("C14",
+      "TLC model-checks the QRandom stream machine over all call histories to the bound (integer-seeded output a function of seed and arguments whatever happened before; generator and global streams advance and are the only ones touched; twin generators agree) and prints its transition graph, which is replayed on fifteen real entry points (data_generator, Experiment, MultinomialDistribution, the four tomography classes): outputs are hashed and must be in bijection with the specification's (stream, history, arguments) tokens, and numpy's global state / each generator's state must change exactly when the specification advances it. TLC also checks exact inverse-CDF sampling on dyadic grids (valid, monotone, exactly 2k grid points per outcome) and prefix-count empirical distributions for every data word and num_sums, and the expected outcome of every uniform / word is compared with the real sampler through a stand-in generator. Postcondition-only probes cover non-dyadic vectors with adversarial uniforms and multinomial-based generation.",
+      "Trusted: QRandom/QData as the reading of the property; output hashes; statistical agreement is a fixed-bound sanity check.",
+      "TLA+ spec (QRandom, QData) model-checked with TLC; replay of the TLC-emitted transition graph and of exact sampling cases into the implementation",
+      "DESIGN.md §4 C14")
+
 ALL = ["C%02d" % i for i in range(1, 21)]
 
 def main():
